@@ -856,7 +856,7 @@ class XsdElement(XsdComponent, ParticleMixin,
         if content is not None:
             del content
 
-        if self.selected_by:
+        if context.identities:
             self.collect_key_fields(obj, xsd_type, validation, nilled, context)
 
         # Apply non XSD optional validations
@@ -903,18 +903,15 @@ class XsdElement(XsdComponent, ParticleMixin,
             xsd_element = _copy(xsd_element)
             xsd_element._set_type(xsd_type)
 
-        # Collect field values for identities that refer to this XSD element. Iterate
-        # over a snapshot: another thread that validates with the same schema can bind
-        # this element to a further identity (xsi:type widening) while the loop runs,
-        # and a set that changes size makes its iterator raise RuntimeError.
-        for identity in tuple(self.selected_by):
-            try:
-                counter = context.identities[identity]
-            except KeyError:
+        # Collect field values for every identity whose scope is open: the nodes that
+        # take part in a constraint are the ones its selector picks out of the instance.
+        # The declaration-level record (selected_by / identity.elements) is only a cache
+        # of field selectors: it misses elements that reach the scope through a
+        # substitution group or a wildcard, and it grows with the xsi:type uses met by
+        # previous runs, so it must not decide what is collected.
+        for identity, counter in list(context.identities.items()):
+            if not counter.enabled:
                 continue
-            else:
-                if not counter.enabled:
-                    continue
 
             if counter.elements is None:
                 # Apply selector on Element ancestor for obtain the selected elements
